@@ -19,10 +19,13 @@ MANIFEST = {
     "level_text": "Machine-checked proof (Coq 8.16.1) that, in a function-for-function model of xfloat.c, "
                   "xsfToNative(xsfFrNative b) = b for ALL 2^32 single and xdfToNative(xdfFrNative b) = b for ALL 2^64 "
                   "double bit patterns (zero/subnormal/normal/Inf/NaN case split, NaN payload and sign included), that "
-                  "dissemble/assemble (sf/df and the run-time fiSFlo/fiDFlo pair) is the identity, and that folder and run "
-                  "time apply the same libc conversion to a literal; the model is tied to the current sources by "
+                  "dissemble/assemble (sf/df and the run-time fiSFlo/fiDFlo pair) is the identity, that folder and run "
+                  "time apply the same libc conversion to a literal (the folder declining exactly the non-finite results), and "
+                  "that util.c DFloatSprint (the text route into generated C, Lisp and .fm) keeps the sign of zero and hands every "
+                  "other value to printf with 17 digits; the model is tied to the current sources by "
                   "regenerated constants and a model-versus-C correspondence run; the C side is additionally checked "
-                  "exhaustively over all 2^32 singles (thorough).",
+                  "exhaustively over all 2^32 singles (thorough); an extreme-constant family is followed end to end through "
+                  "interpreter, executable from generated C, reloaded .fm and the .lsp text against the exact bits.",
     "level_note": "Trusted: Coq kernel; extraction (ExtrOcamlBasic) + ocamlopt for the correspondence only; gcc and the "
                   "harness; libc atof/strtod and the hardware double->float conversion (named oracles, never "
                   "instantiated); IEEE little-endian host (the S370/VAX branches are modelled but the theorems fix the "
@@ -225,21 +228,29 @@ def extract_literal_sites(types):
         m = re.search(r"case\s+FOAM_BVal_ArrTo%s\s*:(.*?)\bbreak\s*;" % kind, cf, re.S)
         raw = norm_ws(m.group(1)) if m else "<case not found>"
         glue, dest, le = 'GOther %s' % coq_str(raw[:200]), None, None
+        guard = False
         if m:
-            stmts = [norm_ws(s) for s in m.group(1).split(";") if norm_ws(s) and not norm_ws(s).startswith("assert")]
+            body = norm_ws(m.group(1))
+            # optional trailing guard (a5dd6ea): if (!isfinite(foam->foamXFlo.XFloData)) { foamFreeNode(foam); foam = bcall; }
+            g = re.search(r"if \( ?! ?isfinite ?\( ?foam ?-> ?foam%s ?\. ?%sData ?\) ?\) ?\{ ?foamFreeNode ?\( ?foam ?\) ?; ?foam ?= ?bcall ?; ?\}$" % (kind, kind), body)
+            if g:
+                guard = True
+                body = body[:g.start()]
+            stmts = [norm_ws(x) for x in body.split(";") if norm_ws(x) and not norm_ws(x).startswith("assert")]
             # expected: s = cfoldArrToString(argv[0]) ; foam = foamNewXFlo(EXPR) ; strFree(s)
-            ms = [re.match(r"(\w+)\s*=\s*cfoldArrToString\s*\(\s*argv\s*\[\s*0\s*\]\s*\)$", s) for s in stmts]
+            ms = [re.match(r"(\w+)\s*=\s*cfoldArrToString\s*\(\s*argv\s*\[\s*0\s*\]\s*\)$", x) for x in stmts]
             var = next((x.group(1) for x in ms if x), None)
-            mf = next((re.match(r"foam\s*=\s*(foamNew\w+)\s*\((.*)\)$", s) for s in stmts
-                       if re.match(r"foam\s*=", s)), None)
-            others = [s for s in stmts if not re.match(r"(\w+)\s*=\s*cfoldArrToString", s)
-                      and not re.match(r"foam\s*=", s) and not re.match(r"strFree\s*\(", s)]
+            mf = next((re.match(r"foam\s*=\s*(foamNew\w+)\s*\((.*)\)$", x) for x in stmts
+                       if re.match(r"foam\s*=", x)), None)
+            others = [x for x in stmts if not re.match(r"(\w+)\s*=\s*cfoldArrToString", x)
+                      and not re.match(r"foam\s*=", x) and not re.match(r"strFree\s*\(", x)]
             if var and mf and not others:
                 glue = "GCopyNul" if copy_ok else "GOther %s" % coq_str("cfoldArrToString body changed")
                 mp = re.search(r"extern\s+Foam\s+%s\s*\(\s*(\w+)\s*\)" % mf.group(1), fh)
                 dest = cty(mp.group(1)) if mp else None
                 le = lexp_coq(LitParse(mf.group(2), var, types).parse(), mf.group(2))
                 sites["foldsrc_" + kind.lower()] = (var, mf.group(2), mp.group(1) if mp else None)
+        sites["guard_fold_" + kind.lower()] = guard
         sites["fold_" + kind.lower()] = (glue, dest or "CDouble", le or "(LOther %s)" % coq_str(raw[:200]), raw,
                                          dest is not None)
         # --- run time
@@ -266,6 +277,78 @@ def extract_literal_sites(types):
     return sites, routes
 
 
+def preprocess_if01(text):
+    """Resolve `#if 0` / `#if 1` ... [#else ...] #endif (the only conditionals inside
+    DFloatSprint).  Any other directive is left in place (and then breaks the shape match)."""
+    out, stack = [], []
+    for ln in text.split("\n"):
+        st = ln.strip()
+        m = re.match(r"#\s*if\s+([01])\s*$", st)
+        if m:
+            stack.append(m.group(1) == "1")
+            continue
+        if stack and re.match(r"#\s*else\b", st):
+            stack[-1] = not stack[-1]
+            continue
+        if stack and re.match(r"#\s*endif\b", st):
+            stack.pop()
+            continue
+        if all(stack):
+            out.append(ln)
+    return "\n".join(out)
+
+
+SPRINT_BRANCH = re.compile(
+    r'if \( ?d == 0\.0 ?\) sprintf ?\( ?buf, ?"((?:[^"\\]|\\.)*)" ?(?:, ?(.*?))? ?\) ?; '
+    r'else sprintf ?\( ?buf, ?"((?:[^"\\]|\\.)*)" ?, ?([A-Za-z_0-9+ ]+?) ?, ?d ?\) ?;$')
+
+
+def extract_sprint_modes(consts):
+    """util.c:DFloatSprint -> {'default': mode, 'floatrep': mode}; mode is a dict with the
+    fields of TextShape.sprint_mode plus the source text of the precision expression."""
+    ut = open(C.SRC + "/util.c").read()
+    m = re.search(r"^DFloatSprint\s*\(([^)]*)\)\s*\{", ut, re.M)
+    bad = {"ok": False, "signed": False, "neg": "", "pos": "", "body": "", "fmt": "", "prec": 0, "prec_src": "?"}
+    if not m:
+        return {"default": dict(bad), "floatrep": dict(bad)}, "<DFloatSprint not found>"
+    i = m.end()
+    depth = 1
+    while i < len(ut) and depth:
+        depth += {"{": 1, "}": -1}.get(ut[i], 0)
+        i += 1
+    body = norm_ws(strip_comments(preprocess_if01(ut[m.end():i - 1])))
+    mm = re.fullmatch(r"if \( ?cmdFloatRepFlag ?\) \{ ?(.*?) ?\} else \{ ?(.*?) ?\} return buf ?;", body)
+    modes = {}
+    for name, txt in (("floatrep", mm.group(1) if mm else None), ("default", mm.group(2) if mm else None)):
+        d = dict(bad)
+        b = SPRINT_BRANCH.match(txt) if txt else None
+        if b:
+            zfmt, zarg, gfmt, prec = b.group(1), b.group(2), b.group(3), b.group(4).strip()
+            try:
+                pv = int(eval(prec, {"__builtins__": {}}, {"DBL_DIG": consts.get("DBL_DIG", 0),
+                                                            "FLT_DIG": consts.get("FLT_DIG", 0)}))
+            except Exception:
+                pv = None
+            ok = pv is not None and "\\" not in zfmt and "\\" not in gfmt
+            if zarg is None:
+                ok = ok and "%" not in zfmt
+                d.update(signed=False, neg="", pos="", body=zfmt)
+            else:
+                za = re.fullmatch(r'signbit ?\( ?d ?\) \? "([^"\\]*)" : "([^"\\]*)"', zarg.strip())
+                ok = ok and za is not None and zfmt.startswith("%s") and "%" not in zfmt[2:]
+                if za:
+                    d.update(signed=True, neg=za.group(1), pos=za.group(2), body=zfmt[2:])
+            d.update(ok=bool(ok), fmt=gfmt, prec=pv or 0, prec_src=prec)
+        modes[name] = d
+    return modes, body
+
+
+def sprint_mode_coq(d):
+    return "Build_sprint_mode %s %s %s %s %s %s %s" % (
+        "true" if d["ok"] else "false", "true" if d["signed"] else "false", coq_str(d["neg"]), coq_str(d["pos"]),
+        coq_str(d["body"]), coq_str(d["fmt"]), ("(%d)" % d["prec"]) if d["prec"] < 0 else str(d["prec"]))
+
+
 def generate():
     """Text of coq/Gen/XFloatParams.v from the current tree."""
     d, order = probe_params()
@@ -275,7 +358,7 @@ def generate():
          "   Constants: compiled probe (harness/xfloat/h.c params) against cport.h / xfloat.h / xfloat.c.",
          "   Literal sites: text of of_cfold.c, foam_c.c, foam.h, fint.c, genc.c. *)",
          "Require Import ZArith String.",
-         "Require Import AV.XFloat.LitShape.",
+         "Require Import AV.XFloat.LitShape AV.XFloat.TextShape.",
          "Local Open Scope Z_scope.",
          "Local Open Scope string_scope.",
          "Module XP.",
@@ -292,10 +375,19 @@ def generate():
     for name in ("fold_sflo", "rt_sflo", "fold_dflo", "rt_dflo"):
         glue, dest, le, raw, _ = sites[name]
         L.append("(* %s *)" % raw.replace("(*", "( *").replace("*)", "* )")[:300])
-        L.append("Definition %s : litsite := Build_litsite (%s) %s %s." % (name, glue, dest, le))
+        L.append("Definition %s : litsite := Build_litsite (%s) %s %s %s." % (
+            name, glue, dest, le, "true" if sites.get("guard_" + name) else "false"))
     L.append("")
     for k in sorted(routes):
         L.append("Definition %s : string := %s." % (k, coq_str(routes[k])))
+    consts = {k: int(v) for k, v in d.items() if re.fullmatch(r"-?\d+", v)}
+    modes, body = extract_sprint_modes(consts)
+    L.append("")
+    L.append("(* util.c DFloatSprint: %s *)" % body.replace("(*", "( *").replace("*)", "* )")[:600])
+    L.append("(* precision expressions: default `%s`, -Wfloatrep `%s` *)" % (modes["default"]["prec_src"],
+                                                                             modes["floatrep"]["prec_src"]))
+    L.append("Definition sprint_default : sprint_mode := %s." % sprint_mode_coq(modes["default"]))
+    L.append("Definition sprint_floatrep : sprint_mode := %s." % sprint_mode_coq(modes["floatrep"]))
     L += ["", "End XP.", ""]
     return "\n".join(L)
 
@@ -1136,12 +1228,454 @@ def e2e_constants(rep, tier, stats):
         rep.notes.append("e2e: constants not found with their correctly rounded bits in the reloaded .ao: %s" % miss[:5])
 
 
+# ------------------------------------------------------------------ text routes (util.c DFloatSprint)
+
+NUM_TOKEN = re.compile(r"-?\d+\.\d*(?:[esEdDfF][-+]?\d+)?$")
+
+
+def check_sprint(rep, tier, stats):
+    """Real DFloatSprint of the current util.c on boundary patterns: (a) against the model's
+    decision (zero text / printf format+precision, printf itself evaluated by Python's
+    correctly rounding formatter), (b) directly: the text must read back as the same bits
+    (default mode, finite values)."""
+    cexe = harness()
+    mexe = model_driver()
+    rng = C.rng("C19/sprint")
+    pats = [0, 1 << 63]
+    fr = frac_boundaries(52, rng, 4, tier != "quick")
+    for e in range(0, 2048):
+        for f in (fr if (e < 3 or e > 2044 or e in (1022, 1023, 1024) or tier != "quick") else fr[:6] + fr[-3:]):
+            pats.append((rng.getrandbits(1) << 63) | (e << 52) | f)
+    for b in single_patterns(rng, "quick")[::7]:          # singles widened exactly to double
+        x = struct.unpack(">f", struct.pack(">I", b))[0]
+        pats.append(struct.unpack(">Q", struct.pack(">d", x))[0])
+    for _ in range(20000 if tier == "quick" else 200000):
+        pats.append(rng.getrandbits(64))
+    ops = ["dsp 0 %016x" % b for b in pats] + ["dsp 1 %016x" % b for b in pats[:20000]]
+    couts = run_parallel(cexe, ["ops"], ops)
+    mouts = run_parallel(mexe, [], ops) if mexe else None
+    n_model = n_oracle = lossy15 = nonfinite_text = 0
+    seen = set()
+    for i, (op, c) in enumerate(zip(ops, couts)):
+        _, repflag, hx_ = op.split()
+        b = int(hx_, 16)
+        x = struct.unpack(">d", struct.pack(">Q", b))[0]
+        s_, e_, f_ = dfields(b)
+        cls = ieee_class(e_, f_, 2047)
+        # (b) direct oracle
+        if cls in ("inf", "nan"):
+            if not NUM_TOKEN.match(c):
+                nonfinite_text += 1               # reported with a program by the end-to-end stage
+        else:
+            try:
+                back = struct.unpack(">Q", struct.pack(">d", float(c)))[0] if NUM_TOKEN.match(c) else None
+            except (ValueError, OverflowError):
+                back = None
+            if repflag == "0":
+                n_oracle += 1
+                if back != b and ("rb", cls) not in seen:
+                    seen.add(("rb", cls))
+                    rep.violation("DFloatSprint writes the %s double %016x as `%s`, which reads back as %s" % (
+                        "negative zero" if b == 1 << 63 else cls, b, c, "%016x" % back if back is not None else "no number"),
+                        {"kind": "sprint", "op": op, "text": c, "class": cls},
+                        key="C19/sprint/%s" % ("negzero" if b == 1 << 63 else cls))
+            elif back != b:
+                if cls == "zero" and ("rb1", cls) not in seen:
+                    seen.add(("rb1", cls))
+                    rep.violation("DFloatSprint (-Wfloatrep) writes the zero %016x as `%s`: sign lost" % (b, c),
+                                  {"kind": "sprint", "op": op, "text": c, "class": cls}, key="C19/sprint/floatrep-zero")
+                else:
+                    lossy15 += 1
+        # (a) model
+        if mouts is not None:
+            n_model += 1
+            m = mouts[i]
+            if m.startswith("T "):
+                want = m[2:]
+            elif m.startswith("P "):
+                _, fmt, prec = m.split()
+                try:
+                    want = fmt % (int(prec), x)
+                    if cls == "nan":             # glibc prints the sign of a NaN, Python does not
+                        want = ("-" if b >> 63 else "") + want.lstrip("-")
+                except (ValueError, TypeError):
+                    want = None
+            else:
+                want = None
+            if want != c and ("model", m[:1]) not in seen:
+                seen.add(("model", m[:1]))
+                rep.violation("correspondence DFloatSprint no longer checks: `%s` gives `%s`, the model says %s -> `%s`" % (
+                    op, c, m, want), {"kind": "correspondence", "op": op, "c": c, "model": m}, no_input=True)
+    stats["sprint_texts_read_back"] = n_oracle
+    stats["sprint_model_compared"] = n_model
+    stats["sprint_floatrep_lossy_15_digits"] = lossy15
+    stats["sprint_nonfinite_texts_not_numeric"] = nonfinite_text
+    return n_oracle
+
+
+# family of extreme constants: (literal text, class)
+TEXT_DOUBLES = [("0.0", "zero"), ("4.9e-324", "minsub"), ("2.225073858507201e-308", "maxsub"),
+                ("2.2250738585072014e-308", "minnorm"), ("1.7976931348623157e308", "maxfinite"),
+                ("1.0000000000000002", "one+ulp"), ("0.9999999999999999", "one-ulp"),
+                ("0.30000000000000004", "17digits"), ("0.1", "17digits"), ("9007199254740993.0", "17digits"),
+                ("1.0e23", "17digits"), ("123456789.12345679", "17digits"), ("5.0e-324", "minsub")]
+TEXT_SINGLES = [("0.0", "zero"), ("1.0e-45", "minsub"), ("1.1754942e-38", "maxsub"), ("1.17549435e-38", "minnorm"),
+                ("3.4028234e38", "maxfinite"), ("1.0000001", "one+ulp"), ("0.99999994", "one-ulp"),
+                ("0.1", "9digits"), ("16777217.0", "9digits"), ("0.3", "9digits"), ("1.00000005960464478", "9digits")]
+
+
+def text_family(rng, tier):
+    """-> (doubles, singles): lists of (aldor expression, expected bits, class)."""
+    dd, ss = [], []
+    for lit, cls in TEXT_DOUBLES:
+        b = struct.unpack(">Q", struct.pack(">d", float(lit)))[0]
+        dd.append((lit, b, cls))
+    for lit, cls in TEXT_DOUBLES[:3]:
+        b = struct.unpack(">Q", struct.pack(">d", float(lit)))[0]
+        dd.append(("-(%s)" % lit, b | (1 << 63), "neg" + cls))
+    for _ in range(6 if tier == "quick" else 40):
+        b = (rng.randrange(1, 2046) << 52) | rng.getrandbits(52)
+        x = struct.unpack(">d", struct.pack(">Q", b))[0]
+        r = repr(x)
+        if "e" in r and "." not in r:
+            r = r.replace("e", ".0e")
+        dd.append((r, b, "random"))
+    for lit, cls in TEXT_SINGLES:
+        b = struct.unpack(">I", struct.pack(">f", float(lit)))[0]
+        ss.append((lit, b, cls))
+        ss.append(("-(%s)" % lit, b | (1 << 31), "neg" + cls))
+    for _ in range(6 if tier == "quick" else 40):
+        b = (rng.randrange(1, 254) << 23) | rng.getrandbits(23)
+        r = shortest_f32(b)
+        if "." not in r:
+            r = r.replace("e", ".0e") if "e" in r else r + ".0"
+        ss.append((r, b, "random"))
+    return dd, ss
+
+
+def text_program(dd, ss, extra=()):
+    L = ['#include "aldor"', '#include "aldorio"', "import from Machine;",
+         "import from SingleFloat, DoubleFloat, MachineInteger;"]
+    if dd:
+        L.append("da: PrimitiveArray DoubleFloat := new(%d, 0.0);" % len(dd))
+        for i, (ex, _, _) in enumerate(dd):
+            L.append("da.%d := %s;" % (i, ex))
+    if ss:
+        L.append("sa: PrimitiveArray SingleFloat := new(%d, 0.0);" % len(ss))
+        for i, (ex, _, _) in enumerate(ss):
+            L.append("sa.%d := %s;" % (i, ex))
+    L += list(extra)
+    if dd:
+        L += ["for i in 0..%d repeat {" % (len(dd) - 1),
+              "\t(s, e, m1, m2) := dissemble((da.i)::DFlo);",
+              '\tstdout << "D " << i << " " << (s pretend Boolean) << " " << (e pretend MachineInteger) << " " << (m1 pretend MachineInteger) << newline;',
+              "}"]
+    if ss:
+        L += ["for i in 0..%d repeat {" % (len(ss) - 1),
+              "\t(s, e, m1) := dissemble((sa.i)::SFlo);",
+              '\tstdout << "S " << i << " " << (s pretend Boolean) << " " << (e pretend MachineInteger) << " " << (m1 pretend MachineInteger) << newline;',
+              "}"]
+    return "\n".join(L) + "\n"
+
+
+def decode_slots(out, consts):
+    """Program output -> {('D'|'S', i): bits} (bits as the run-time dissemble saw them)."""
+    res = {}
+    for ln in out.split("\n"):
+        p = ln.split()
+        if len(p) == 5 and p[0] in ("D", "S") and p[2] in ("T", "F"):
+            try:
+                i, e, m = int(p[1]), int(p[3]), int(p[4])
+            except ValueError:
+                continue
+            sg = 1 if p[2] == "T" else 0
+            if p[0] == "D":
+                fr = bswap_int(m & ((1 << 64) - 1), 8)
+                res[("D", i)] = (sg << 63) | (((e + consts["DF_Excess"]) & 0x7ff) << 52) | (fr >> consts["DF_FracOff"])
+            else:
+                fr = bswap_int(m & 0xffffffff, 4)
+                res[("S", i)] = (sg << 31) | (((e + consts["SF_Excess"]) & 0xff) << 23) | (fr >> consts["SF_FracOff"])
+    return res
+
+
+def parse_text_consts(route, text):
+    """Float constants of a text output: [(kind, token, bits or None)]; kind 'D'/'S'
+    ('D' for every C literal: the C text carries singles as double literals)."""
+    out = []
+    if route == "lsp":
+        toks = re.findall(r"\(the \|(DFlo|SFlo)\| ([^\s()]+)\)", text)
+    elif route == "fm":
+        toks = re.findall(r"\((DFlo|SFlo)\s+([^\s()]+)\)", text)
+    else:
+        toks = [("DFlo", t) for t in re.findall(r"(?<![\w.])(-?\d+\.\d{6,}(?:e[-+]?\d+)?|-?\binf\b|-?\bnan\b)(?![\w.])", text)]
+    for k, t in toks:
+        m = re.fullmatch(r"(-?\d+\.\d*)(?:[esES]([-+]?\d+))?", t)
+        bits = None
+        if m:
+            try:
+                v = float(m.group(1) + "e" + (m.group(2) or "0"))
+                bits = struct.unpack(">Q", struct.pack(">d", v))[0] if k == "DFlo" else \
+                    struct.unpack(">I", struct.pack(">f", v))[0]
+            except (ValueError, OverflowError):
+                bits = None
+        out.append(("D" if k == "DFlo" else "S", t, bits))
+    return out
+
+
+TEXT_ROUTES = ("interp", "exe", "fm", "lsp")
+
+
+def run_text_routes(src, routes=TEXT_ROUTES, opt="-Q3"):
+    """Compile `src` with the compiler built from the CURRENT tree and observe its float
+    constants on each route.  -> {route: {'slots': {...}} | {'consts': [...]} | {'error': str}}"""
+    consts = {k: int(v) for k, v in probe_params()[0].items() if re.fullmatch(r"-?\d+", v)}
+    exe = C.build_compiler()
+    base = C.aldor_base_args(exe)
+    env = C.aldor_env()
+    top = C.scratch("c19txt")
+    res = {}
+
+    def wd(name):
+        d = os.path.join(top, name)
+        os.makedirs(d, exist_ok=True)
+        open(d + "/p.as", "w").write(src)
+        return d
+    if "interp" in routes:
+        d = wd("interp")
+        rc, out, err = C.run(base + [opt, "-ginterp", "p.as"], cwd=d, env=env, timeout=300)
+        res["interp"] = {"slots": decode_slots(out, consts), "rc": rc, "log": (out + err)[-400:]}
+    if "exe" in routes:
+        d = wd("exe")
+        rc, out, err = C.run(base + [opt, "-Ccc=%s/aldor/subcmd/unitools/unicl" % C.RB, "-Y%s/aldor/lib/libfoam" % C.RB,
+                                     "-laldor", "-Cargs=-Wconfig=%s/aldor/src/aldor.conf -I%s/aldor/src" % (C.RB, C.RB),
+                                     "-Fx=p.exe", "p.as"], cwd=d, env=env, timeout=600)
+        d2 = wd("ctext")
+        C.run(base + [opt, "-Fc=p.c", "p.as"], cwd=d2, env=env, timeout=300)
+        ctext = open(d2 + "/p.c").read() if os.path.exists(d2 + "/p.c") else ""
+        if not os.path.exists(d + "/p.exe"):
+            m = re.search(r"error: [^\n]*", out + err)
+            res["exe"] = {"error": "no executable: " + (m.group(0) if m else (out + err)[-300:]), "ctext": ctext}
+        else:
+            rc2, out2, err2 = C.run([d + "/p.exe"], cwd=d, env=env, timeout=120)
+            res["exe"] = {"slots": decode_slots(out2, consts), "rc": rc2, "log": (out2 + err2)[-400:], "ctext": ctext}
+    if "fm" in routes or "lsp" in routes:
+        d = wd("text")
+        rc, out, err = C.run(base + [opt, "-Ffm=p.fm", "-Flsp=p.lsp", "p.as"], cwd=d, env=env, timeout=300)
+        fm = open(d + "/p.fm").read() if os.path.exists(d + "/p.fm") else None
+        lsp = open(d + "/p.lsp").read() if os.path.exists(d + "/p.lsp") else None
+        if "fm" in routes:
+            if fm is None:
+                res["fm"] = {"error": "no .fm written: " + (out + err)[-300:]}
+            else:
+                os.remove(d + "/p.as")
+                rc2, out2, err2 = C.run(base + ["-ginterp", "-laldor", "p.fm"], cwd=d, env=env, timeout=300)
+                sl = decode_slots(out2, consts)
+                res["fm"] = {"slots": sl, "rc": rc2, "log": (out2 + err2)[-400:], "consts": parse_text_consts("fm", fm), "text": fm}
+                if rc2 != 0 and not sl:
+                    m = re.search(r"\(Fatal Error\)[^\n]*", out2 + err2)
+                    res["fm"]["error"] = "reload of the .fm failed: " + (m.group(0) if m else (out2 + err2)[-300:])
+        if "lsp" in routes:
+            res["lsp"] = {"error": "no .lsp written"} if lsp is None else {"consts": parse_text_consts("lsp", lsp), "text": lsp}
+    return res
+
+
+def text_presence(route, consts, kind, want_bits):
+    """Is a constant with exactly these bits in the text?  -> 'exact' | ('near', token) | 'absent'.
+    near = a constant that compares equal as a number (or within 1e-14 relative) but has other
+    bits: the text lost information."""
+    near = None
+    w = struct.unpack(">d", struct.pack(">Q", want_bits))[0] if kind == "D" else \
+        struct.unpack(">f", struct.pack(">I", want_bits))[0]
+    for k, tok, bits in consts:
+        if k != kind or bits is None:
+            continue
+        if bits == want_bits:
+            return "exact"
+        v = struct.unpack(">d", struct.pack(">Q", bits))[0] if kind == "D" else struct.unpack(">f", struct.pack(">I", bits))[0]
+        if v == w or (w != 0 and abs(v - w) <= 1e-14 * abs(w)):
+            near = tok
+    return ("near", near) if near is not None else "absent"
+
+
+def e2e_text_routes(rep, tier, stats, only=None):
+    """The text routes a FOLDED constant takes (generated C -> executable, .fm -> reloaded,
+    .lsp -> small reader) against the interpreter and against the exact bits."""
+    rng = C.rng("C19/text")
+    dd, ss = text_family(rng, tier)
+    src = text_program(dd, ss)
+    try:
+        R = run_text_routes(src)
+    except C.BuildError as e:
+        rep.notes.append("text routes: compiler build failed: " + str(e)[:200])
+        return 0
+    expected = {("D", i): (b, cls, ex) for i, (ex, b, cls) in enumerate(dd)}
+    expected.update({("S", i): (b, cls, ex) for i, (ex, b, cls) in enumerate(ss)})
+    checked = 0
+    done = set()
+    cmd = {"interp": "aldor -Q3 -ginterp p.as", "exe": "aldor -Q3 -Fx=p.exe p.as ; ./p.exe",
+           "fm": "aldor -Q3 -Ffm=p.fm p.as ; aldor -ginterp -laldor p.fm", "lsp": "aldor -Q3 -Flsp=p.lsp p.as ; read the (the |DFlo| ...) / (the |SFlo| ...) constants"}
+    for route in ("interp", "exe", "fm"):
+        r = R.get(route, {})
+        if "error" in r or not r.get("slots"):
+            rep.violation("text route %s: the extreme-constant program did not run: %s" % (route, r.get("error") or r.get("log", "")[-200:]),
+                          {"kind": "textroute", "route": route, "source": src, "cmd": cmd[route], "slot": None},
+                          key="C19/text/%s/run" % route)
+            continue
+        for slot, (b, cls, ex) in sorted(expected.items()):
+            got = r["slots"].get(slot)
+            checked += 1
+            if got != b and (route, cls) not in done:
+                done.add((route, cls))
+                w = 16 if slot[0] == "D" else 8
+                mini = text_program([(ex, b, cls)] if slot[0] == "D" else [], [(ex, b, cls)] if slot[0] == "S" else [])
+                rep.violation("%s constant %s (%s, bits %0*x) is %s on route %s (%s)" % (
+                    "DoubleFloat" if slot[0] == "D" else "SingleFloat", ex, cls, w, b,
+                    ("%0*x" % (w, got)) if got is not None else "missing", route, cmd[route]),
+                    {"kind": "textroute", "route": route, "class": cls, "expr": ex, "prec": slot[0], "want": "%0*x" % (w, b),
+                     "got": None if got is None else "%0*x" % (w, got), "source": mini, "cmd": cmd[route]},
+                    key="C19/text/%s/%s" % (route, cls))
+    # text level: the .lsp has no loader here, so its constants are read by a small reader;
+    # the .fm and C texts are read the same way as additional evidence.
+    #  - SingleFloat stores carry their slot number in all three texts: compared slot by slot;
+    #  - DoubleFloat values are boxed (no slot in the text) and their negation is not folded:
+    #    every non-zero folded literal must be present with its exact bits; a constant that
+    #    is numerically within 1e-14 but has other bits means the text lost information.
+    SLOT_RE = {
+        "lsp": r"\(\|SetAElt\| \S+ \(the \|SInt\| (\d+)\)\s+\(the \|SFlo\| ([^\s()]+)\)\)",
+        "fm-text": r"\(Set\s+\(AElt\s+Word\s+\(SInt\s+(\d+)\)\s+\([^()]*\)\)\s+\(Cast\s+Word\s+\(SFlo\s+([^\s()]+)\)\)\)",
+        "c-text": r"fiWORD_FR_SFLO\(\(\(FiWord\*\) \w+\)\[(\d+)L\], ([^\s()]+)\);",
+    }
+    texts = {"lsp": R.get("lsp", {}).get("text"), "fm-text": R.get("fm", {}).get("text"),
+             "c-text": R.get("exe", {}).get("ctext") or None}
+    folded = 0
+    for route, text in texts.items():
+        if text is None:
+            rep.violation("text route %s: no output" % route, {"kind": "textroute", "route": route, "source": src, "slot": None},
+                          key="C19/text/%s/run" % route)
+            continue
+        stores = re.findall(SLOT_RE[route], text)
+        if not stores:
+            rep.notes.append("text route %s: no SingleFloat constant stores recognised (code shape changed?)" % route)
+        for idx, tok in stores:
+            slot = ("S", int(idx))
+            if slot not in expected:
+                continue
+            b, cls, ex = expected[slot]
+            m = re.fullmatch(r"(-?\d+\.\d*)(?:[esES]([-+]?\d+))?", tok)
+            try:
+                got = struct.unpack(">I", struct.pack(">f", float(m.group(1) + "e" + (m.group(2) or "0"))))[0] if m else None
+            except (ValueError, OverflowError):
+                got = None
+            checked += 1
+            folded += 1
+            if got != b and (route, cls) not in done:
+                done.add((route, cls))
+                mini = text_program([], [(ex, b, cls)])
+                rep.violation("SingleFloat constant %s (%s, bits %08x) is written to the %s as `%s` = %s" % (
+                    ex, cls, b, {"lsp": ".lsp", "fm-text": ".fm", "c-text": "generated C"}[route], tok,
+                    "%08x" % got if got is not None else "not a number"),
+                    {"kind": "textroute", "route": route, "textonly": True, "class": cls, "expr": ex, "prec": "S",
+                     "want": "%08x" % b, "token": tok, "source": mini, "cmd": "aldor -Q3 -Flsp -Ffm -Fc p.as"},
+                    key="C19/text/%s/%s" % (route, cls))
+        consts_ = parse_text_consts({"lsp": "lsp", "fm-text": "fm", "c-text": "c"}[route], text)
+        for slot, (b, cls, ex) in sorted(expected.items()):
+            if slot[0] != "D" or cls.startswith("neg") or (b & ((1 << 63) - 1)) == 0:
+                continue
+            pr = text_presence(route, consts_, "D", b)
+            if pr == "exact":
+                folded += 1
+                checked += 1
+            elif pr != "absent" and (route, cls) not in done:
+                done.add((route, cls))
+                mini = text_program([(ex, b, cls)], [])
+                rep.violation("DoubleFloat constant %s (%s, bits %016x) appears in the %s text as `%s`, which is a different value" % (
+                    ex, cls, b, route, pr[1]),
+                    {"kind": "textroute", "route": route, "textonly": True, "class": cls, "expr": ex, "prec": "D",
+                     "want": "%016x" % b, "token": pr[1], "source": mini, "cmd": "aldor -Q3 -Flsp -Ffm -Fc p.as"},
+                    key="C19/text/%s/%s" % (route, cls))
+    stats["text_route_slots_checked"] = checked
+    stats["text_constants_found_folded"] = folded
+    stats["text_family"] = {"doubles": len(dd), "singles": len(ss)}
+    return checked
+
+
+NONFINITE_PROGRAMS = {
+    # (class, cause) -> (doubles, singles) as aldor expressions
+    # literal: since /repo a5dd6ea the folder declines an overflowing literal, so it must work on
+    #          every route (a failure here is a regression, never a listed finding);
+    # folded-arithmetic: 1.0/0.0 and 0.0/0.0 are folded by -Qffold (-Q2 and above).
+    ("inf", "literal"): ([("1.0e400", None, "inf")], [("1.0e39", None, "inf")]),
+    ("inf", "folded-arithmetic"): ([], [("1.0/0.0", None, "inf"), ("-(1.0/0.0)", None, "inf")]),
+    ("nan", "folded-arithmetic"): ([], [("0.0/0.0", None, "nan")]),
+}
+
+
+def slot_class(kind, bits):
+    s, e, f = dfields(bits) if kind == "D" else sfields(bits)
+    return ieee_class(e, f, 2047 if kind == "D" else 255)
+
+
+def e2e_nonfinite(rep, tier, stats):
+    """Can a constant be an infinity or a NaN, and what do the text routes make of it?"""
+    n = 0
+    for (cls, cause), (dd, ss) in sorted(NONFINITE_PROGRAMS.items()):
+        src = text_program(dd, ss)
+        suffix = ":" + cause if cause != "literal" else ":literal"
+        try:
+            R = run_text_routes(src)
+        except C.BuildError as e:
+            rep.notes.append("non-finite constants: compiler build failed: " + str(e)[:200])
+            return n
+        ref = R.get("interp", {}).get("slots", {})
+        if not ref or any(slot_class(k[0], v) != cls for k, v in ref.items()):
+            # the interpreter is the reference for what the program means: 1.0e400 is +inf,
+            # 1.0/0.0 is +inf, 0.0/0.0 is a NaN
+            rep.violation("the interpreter at -Q3 does not compute %s for %s: slots %s" % (
+                cls, [e for e, _, _ in dd + ss], {"%s%d" % k: "%x" % v for k, v in ref.items()}),
+                {"kind": "textroute", "route": "interp", "class": cls, "nonfinite": True, "cause": cause, "source": src},
+                key="C19/text/interp/%s%s" % (cls, suffix))
+            continue
+        fmc = R.get("fm", {}).get("consts") or []
+        stats["nonfinite_%s_%s_tokens_in_fm" % (cls, cause)] = [t for _, t, b in fmc if b is None]
+        for route, what in (("exe", "c"), ("fm", "fm")):
+            r = R.get(route, {})
+            n += 1
+            bad = None
+            if "error" in r:
+                bad = r["error"]
+            else:
+                diff = {k: v for k, v in ref.items() if (cls == "inf" and r.get("slots", {}).get(k) != v) or
+                        (cls == "nan" and (r.get("slots", {}).get(k) is None or slot_class(k[0], r["slots"][k]) != "nan"))}
+                if diff:
+                    bad = "slots differ from the interpreter: want %s, got %s" % (
+                        {"%s%d" % k: "%x" % v for k, v in diff.items()},
+                        {"%s%d" % k: ("%x" % r["slots"][k]) if k in r.get("slots", {}) else None for k in diff})
+            if bad:
+                rep.violation("a %s constant from %s (e.g. `%s`) does not survive the %s route: %s" % (
+                    cls, "a literal" if cause == "literal" else "folded arithmetic", (dd + ss)[0][0],
+                    {"c": "generated C", "fm": ".fm text"}[what], bad[:240]),
+                    {"kind": "textroute", "route": route, "class": cls, "nonfinite": True, "cause": cause, "source": src,
+                     "error": bad}, key="C19/text/%s/%s%s" % (what, cls, suffix))
+        lc = R.get("lsp", {}).get("consts")
+        n += 1
+        if lc is not None:
+            badtok = [t for _, t, b in lc if b is None]
+            if badtok:
+                rep.violation("a %s constant from %s (e.g. `%s`) is written to the .lsp as `%s`, which is not a number" % (
+                    cls, "a literal" if cause == "literal" else "folded arithmetic", (dd + ss)[0][0], badtok[0]),
+                    {"kind": "textroute", "route": "lsp", "class": cls, "nonfinite": True, "cause": cause, "source": src,
+                     "tokens": badtok}, key="C19/text/lsp/%s%s" % (cls, suffix))
+    stats["nonfinite_route_checks"] = n
+    return n
+
+
 # ------------------------------------------------------------------ entry points
 
 def searcher(rep, log, stats):
     """Called when a proof obligation (or the regenerated parameter file) no longer
     checks: look for a concrete input on which the property fails on the implementation."""
     before = len(rep.violations) + len(rep.known)
+    before_v = len(rep.violations)
     # name the lemma whose proof broke (file:line of the first coqc error)
     m = re.search(r'File "\./([^"]+)", line (\d+)', log or "")
     if m:
@@ -1155,14 +1689,35 @@ def searcher(rep, log, stats):
         except OSError:
             pass
     try:
-        run_bulk(rep, bulk_jobs("quick", C.rng("C19/search")), stats)
-        if len(rep.violations) + len(rep.known) == before:
+        if "TextFacts" in (log or "") or stats.get("failing_lemma", "").startswith("sprint"):
+            # a proof about the text route broke: look there first
+            check_sprint(rep, "quick", stats)
+            e2e_text_routes(rep, "quick", stats)
+        if stats.get("failing_lemma", "").startswith("lit_"):
+            # a proof about the literal sites broke: differential on literals, then the
+            # programs whose literal overflows (the folder must decline those)
             check_literals(rep, "quick", stats)
-        if len(rep.violations) + len(rep.known) == before:
+            if len(rep.violations) == before_v:
+                e2e_nonfinite(rep, "quick", stats)
+        if len(rep.violations) == before_v:
+            run_bulk(rep, bulk_jobs("quick", C.rng("C19/search")), stats)
+        if len(rep.violations) == before_v:
+            check_literals(rep, "quick", stats)
+        if len(rep.violations) == before_v:
             correspondence(rep, "quick", stats)
+        if len(rep.violations) == before_v and "TextFacts" not in (log or ""):
+            check_sprint(rep, "quick", stats)
+            e2e_text_routes(rep, "quick", stats)
+        if len(rep.violations) == before_v and not stats.get("failing_lemma", "").startswith("lit_"):
+            e2e_nonfinite(rep, "quick", stats)
     except C.BuildError as e:
         rep.notes.append("searcher: " + str(e)[:300])
     stats["searcher_ran"] = True
+    if len(rep.violations) == before_v:
+        # listed findings that reproduce do not explain a broken proof
+        rep.violation("proof obligation no longer checks: %s (no failing input found by the searcher)" % (
+            stats.get("failing_lemma") or "see log"), {"log_tail": (log or "")[-2000:], "lemma": stats.get("failing_lemma")},
+            no_input=True)
 
 
 def run(rep, tier):
@@ -1192,6 +1747,9 @@ def run(rep, tier):
         run_bulk_bf(rep, tier, stats)
         check_literals(rep, tier, stats)
         e2e_constants(rep, tier, stats)
+        check_sprint(rep, tier, stats)
+        e2e_text_routes(rep, tier, stats)
+        e2e_nonfinite(rep, tier, stats)
     t3 = time.time()
     # 4. evidence
     rep.add_cov(
@@ -1218,6 +1776,7 @@ def run(rep, tier):
         literals_agree_with_python_strtod=stats.get("literals_agree_with_python_strtod", 0),
         timings_s={"generate": round(t1 - t0, 1), "proof": round(t2 - t1, 1), "correspondence+oracle": round(t3 - t2, 1)},
     )
+    rep.add_cov(text_routes={k: stats[k] for k in sorted(stats) if k.startswith(("text_", "sprint_", "nonfinite_"))})
     if "e2e_constants_compared" in stats:
         rep.add_cov(e2e_constants_compared=stats["e2e_constants_compared"],
                     e2e_literals_found=stats.get("e2e_literals_found", 0))
@@ -1229,6 +1788,8 @@ def run(rep, tier):
         "byte buffers are modelled by their big-endian integer value; the byte loops of util.c bfShiftUp/bfShiftDn/bfFirst1 are modelled at that level (mul/div by 2^k, Z.log2) and tied by the correspondence run on the shapes xfloat.c uses (in place; out of place only for shifts < 8)",
         "literals: libc atof is a deterministic function of its text (no setlocale in the compiler: locale C at compile time and run time), named oracle `libc` in lit_same_function_partial; hardware double->float conversion named oracle `d2f`",
         "literals: the run-time character array of a literal is its characters followed by NUL (fint.c FOAM_Arr case, C string literal in generated C), the same text cfoldArrToString builds; glue shapes checked by lit_routes, the text equality itself is not proved",
+        "text routes: what printf(\"%#.*g\", 17, d) prints and what a reader (strtod, the C compiler's floating constant, the Lisp reader, sexpr.c's scanner via atof) makes of it are libc/gcc behaviour: named hypotheses g17_roundtrip (17 significant digits determine a finite binary64; NOT proved from Flocq here) and reader_reads_zero_text in dfloat_sprint_readback_partial; exercised on real DFloatSprint output re-read by Python's correctly rounding float() (all exponents x boundary fractions)",
+        "text routes, end to end: the executable links /repo's pre-built libaldor.a / libfoam.a (C.RB) with C generated by the compiler built from the current tree; the .lsp is not loaded by a Lisp, its constants are read by a small reader in props/c19.py; -Wfloatrep (15 digits) is lossy by design and only its zero case is checked",
         "fiDFloDissemble returns an indeterminate second word (fracb[1] is never written); modelled as an arbitrary value `junk` and ignored by fiDFloAssemble",
     )
     return ok
@@ -1246,6 +1807,24 @@ def replay(path):
         bad = len(p) != 4 or p[0] != p[1] or p[2] != p[3]
         print("literal %r -> %s : %s" % (r["literal"], lines[:1], "VIOLATES" if bad else "ok"))
         return 1 if bad else 0
+    if kind in ("textroute", "sprint"):
+        class _T:
+            def __init__(self):
+                self.v, self.notes = [], []
+            def violation(self, what, obj, key=None, no_input=False):
+                self.v.append((key, what))
+        rr = _T()
+        if kind == "sprint":
+            check_sprint(rr, "quick", {})
+        elif r.get("nonfinite"):
+            e2e_nonfinite(rr, "quick", {})
+        else:
+            e2e_text_routes(rr, "quick", {})
+        hit = [w for k, w in rr.v if k == obj.get("key")]
+        print("%s: %s" % (obj.get("key"), ("VIOLATES: " + hit[0][:300]) if hit else "ok"))
+        if r.get("source"):
+            print("program:\n" + (r.get("minimal") or r["source"]))
+        return 1 if hit else 0
     if kind == "e2e":
         class _R:
             notes = []
